@@ -328,6 +328,7 @@ func (m *MTProto) readMsg() error {
 }
 
 func (m *MTProto) processResponse(msg messages.Common) error {
+	verifYield("recv:process", msg)
 	var data tl.Object
 	var err error
 	if et := m.expectedTypesFor(msg.GetMsg()); len(et) > 0 {
